@@ -23,6 +23,11 @@ pub fn plan(tier: &str, seed: u64) -> Vec<Batch> {
             if absent {
                 uni.proc_opts = "absent".into();
             }
+            // every seventh batch of the emulated side: openat2 is refused with EPERM instead of
+            // ENOSYS (seccomp profiles of older container runtimes)
+            if uni.no_openat2 && i % 7 == 3 {
+                uni.openat2_eperm = true;
+            }
             v.push(Batch {
                 check: "C01".into(),
                 phase: "quiescent".into(),
